@@ -118,7 +118,7 @@ fn cmd_query(args: &[String]) -> i32 {
                 }
             }
         });
-        println!("{}\n   => {}   [{} ticks, interrupt fired at {}] caught by {:?}", q, r.text(), vh::ticks() - t0, vh::interrupt_fired_at().saturating_sub(t0), vh::take_catch_trace());
+        println!("{}\n   => {}   [{} ticks, interrupt fired at {}] caught by {:?} kept by {:?}", q, r.text(), vh::ticks() - t0, vh::interrupt_fired_at().saturating_sub(t0), vh::take_catch_trace(), vh::take_last_interrupt_catcher());
         if r.panic.as_deref().map(|p| p.contains("TickBudget")).unwrap_or(false) {
             if let Some((k, d)) = m.hang_site() {
                 println!("   hang site: {k}{d}");
